@@ -2,6 +2,7 @@ import Fabio.Lemmas.C20Num
 import Fabio.Lemmas.C20Lex
 import Fabio.Lemmas.C20Log
 import Fabio.Lemmas.C20Capture
+import Fabio.Lemmas.C20Line
 /-!
 C20 — access logging is accurate and can never disturb a request: the property theorems.
 
@@ -198,6 +199,54 @@ theorem exactly_one_line_fails_on_empty_rendering :
     ∃ (p : List Item) (e : Event), p ≠ [] ∧ parse "$header.Referer".toList = .ok (.ok p) ∧
       render p e = .ok [] ∧ write p e = .ok [] :=
   ⟨[.header "Referer".toList], {}, by decide, by rfl, by decide, by decide⟩
+
+/-! ## the whole line against the reference -/
+
+/-- `hostport` computes exactly the reference's split at the last colon (`Spec.splitLastColon`, written with
+`reverse`/`takeWhile`): host and port of `$remote_*` / `$upstream_*` are what the reference prints, for every
+address — empty, without a port, IPv6 in brackets, several colons. -/
+theorem hostport_eq_reference (s : List Char) : hostport s = .ok (Spec.splitLastColon s) :=
+  Lemmas.C20.hostport_eq_split s
+
+/-- `fields_eq_reference_partial` without the exclusion: all 31 fields of the table, the four that go through
+`hostport` included, equal the reference rendering (forced hypothesis: no MinInt64, as above). -/
+theorem all_fields_eq_reference_partial (e : Event) (hr : EventInRange e) (hc : EventCalendar e) (hd : 0 ≤ e.durNs)
+    (hmin : -2^63 < e.status ∧ -2^63 < e.contentLength ∧ -2^63 < e.unixNano)
+    (name : String) (f : Event → Outcome (List Char)) (hf : fieldTable.lookup name = some f) :
+    ∃ r, Spec.refField e name = some r ∧ f e = .ok r :=
+  Lemmas.C20.fields_eq_reference_all e hr hc hd hmin name f hf
+
+/-
+Full statement of the property's first sentence at the level of the model:
+  ∀ format p e, parse format = ok p → p ≠ [] → EventInRange e → EventCalendar e → 0 ≤ e.durNs →
+     newAndLog format e = ok (written (Spec.refLine p e ++ ['\n']))
+It is false twice: at MinInt64 (`fields_eq_reference_fails_at_minInt64`) and for an empty rendering
+(`exactly_one_line_fails_on_empty_rendering`, D26). Both hypotheses below are forced.
+-/
+/-- **The first sentence of the property, end to end**: for every format `logger.New` accepts and every event,
+`Log` writes exactly the reference line — text items as they are, header items by `Header.Get`, every field as
+`Nat.repr` / the UTC calendar fields / the last-colon split render it — followed by exactly one newline; the parser,
+the 31 field functions, `hostport`, `atoi` and `write` composed. -/
+theorem log_line_eq_reference_partial (format : List Char) (p : List Item) (e : Event)
+    (hp : parse format = .ok (.ok p)) (hr : EventInRange e) (hc : EventCalendar e) (hd : 0 ≤ e.durNs)
+    (hmin : -2^63 < e.status ∧ -2^63 < e.contentLength ∧ -2^63 < e.unixNano) (hline : Spec.refLine p e ≠ []) :
+    newAndLog format e = .ok (.written (Spec.refLine p e ++ ['\n'])) := by
+  have hk := parse_known knownField format p hp
+  have hrd := Lemmas.C20.render_eq_reference p e hk hr hc hd hmin
+  have hw := exactly_one_line_partial p e _ hrd hline
+  unfold newAndLog
+  rw [hp]
+  cases p with
+  | nil => exact absurd rfl hline
+  | cons it rest => simp [Outcome.bind, hw, Outcome.map]
+
+/-- … and the line is one line: if no text item, header value or address carries a newline of its own, the bytes
+written contain exactly one `'\n'`, at the end. -/
+theorem log_line_is_one_line (p : List Item) (e : Event) (h : '\n' ∉ Spec.refLine p e) :
+    (Spec.refLine p e ++ ['\n']).count '\n' = 1 := one_newline _ h
+
+example : ∃ p, parse "$remote_host:$remote_port $response_status".toList = .ok (.ok p) ∧
+    Spec.refLine p { remoteAddr := "[::1]:5000".toList, status := 204 } = "[::1]:5000 204".toList := ⟨_, rfl, by decide⟩
 
 /-! ## concurrent requests through one logger (`Model/C20Log.lean`) -/
 
